@@ -81,5 +81,78 @@ def main():
         shutil.rmtree(d, ignore_errors=True)
 
 
+
+
+# ---- inline-temp: `x = E` immediately followed by a statement that uses x exactly once (and x is used nowhere else in the function)
+#      -> the use is replaced by (E) and the assignment removed.  Adjacent statements: the order of evaluation cannot change except
+#      within the consuming statement, so only uses that are evaluated FIRST in it are inlined conservatively: the use must be the
+#      first Name/Call/Subscript evaluated -- approximated by requiring that no Call precedes it in source order.
+class InlineTemp(ast.NodeTransformer):
+    n = 0
+
+    def visit_FunctionDef(self, node):
+        self.generic_visit(node)
+        loads = {}
+        stores = {}
+        for x in ast.walk(node):
+            if isinstance(x, ast.Name):
+                (loads if isinstance(x.ctx, ast.Load) else stores).setdefault(x.id, []).append(x)
+        params = {a.arg for a in ast.walk(node.args) if isinstance(a, ast.arg)}
+
+        def process(stmts):
+            i = 0
+            while i + 1 < len(stmts):
+                a, b = stmts[i], stmts[i + 1]
+                if isinstance(a, ast.Assign) and len(a.targets) == 1 and isinstance(a.targets[0], ast.Name):
+                    nm = a.targets[0].id
+                    uses_in_b = [x for x in ast.walk(b) if isinstance(x, ast.Name) and x.id == nm and isinstance(x.ctx, ast.Load)]
+                    simple_b = isinstance(b, (ast.Assign, ast.Return, ast.Expr, ast.AugAssign))
+                    if nm not in params and len(stores.get(nm, [])) == 1 and len(loads.get(nm, [])) == 1 and len(uses_in_b) == 1 and simple_b \
+                            and not any(isinstance(x, (ast.Lambda, ast.ListComp, ast.GeneratorExp, ast.DictComp, ast.SetComp)) for x in ast.walk(b)) \
+                            and not any(isinstance(x, (ast.Lambda, ast.NamedExpr, ast.Yield, ast.Await, ast.Starred)) for x in ast.walk(a.value)):
+                        use = uses_in_b[0]
+                        # nothing with an effect is evaluated in b before the use
+                        before = [x for x in ast.walk(b) if isinstance(x, ast.Call) and (x.lineno, x.col_offset) < (use.lineno, use.col_offset)
+                                  and not any(y is use for y in ast.walk(x))]
+                        if not before:
+                            class Sub(ast.NodeTransformer):
+                                def visit_Name(self_, n_):
+                                    return a.value if n_ is use else n_
+                            stmts[i + 1] = Sub().visit(b)
+                            del stmts[i]
+                            InlineTemp.n += 1
+                            continue
+                i += 1
+            for st in stmts:
+                for fld in ("body", "orelse", "finalbody"):
+                    sub = getattr(st, fld, None)
+                    if isinstance(sub, list) and sub and isinstance(sub[0], ast.stmt) and not isinstance(st, (ast.FunctionDef, ast.ClassDef)):
+                        process(sub)
+        process(node.body)
+        return node
+
+
+_old_transform = transform
+
+
+def transform(path, mode):   # noqa: F811
+    if mode != "inline-temp":
+        return _old_transform(path, mode)
+    src = open(path, encoding="utf-8").read()
+    tree = InlineTemp().visit(ast.parse(src))
+    ast.fix_missing_locations(tree)
+    new = "\n".join(l for l in src.split("\n")[:3] if l.startswith("#")) + "\n" + ast.unparse(tree) + "\n"
+    compile(new, path, "exec")
+    open(path, "w", encoding="utf-8").write(new)
+
+
+_old_apply = apply
+
+
+def apply(dst, mode):   # noqa: F811
+    r = _old_apply(dst, mode)
+    return r + InlineTemp.n
+
+
 if __name__ == "__main__":
     main()
